@@ -38,6 +38,13 @@ SchemaByValue(edges) == { <<edges[i].from, edges[i].to>> :
                           i \in { k \in DOMAIN edges : edges[k].kind \notin SchemaHeapEdge } }
 SchemaAcyclic(n, edges) == Acyclic(SchemaByValue(edges), 1 .. n)
 
+(* third observation: the by-value graph of the rendered items, rendered : Seq([name, holds]) where
+   holds lists the generated types a struct / enum mentions outside Box, Vec, maps and sets *)
+RenderedByValue(rendered) ==
+    UNION { { <<rendered[i].name, rendered[i].holds[j]>> : j \in DOMAIN rendered[i].holds } : i \in DOMAIN rendered }
+RenderedNames(rendered) == { rendered[i].name : i \in DOMAIN rendered }
+RenderedFinite(rendered) == Acyclic(RenderedByValue(rendered), RenderedNames(rendered))
+
 (* verdict for one observation of a case (graph with n definitions) *)
 C07_Diag(n, edges, res, entries) ==
     IF res # "ok" THEN "C07/Rejected"
